@@ -203,8 +203,22 @@ def _run(ctx: Ctx, args, t0: float) -> int:
     ctx.intensify = bool(broken)
     ctx.broken = broken
     ctx.driver_ok = driver_ok
-    ex: Exploration = mod.explore(ctx) if driver_ok else (
-        mod.explore_impl_only(ctx) if hasattr(mod, "explore_impl_only") else Exploration(rule="build failed; no exploration"))
+    try:
+        ex: Exploration = mod.explore(ctx) if driver_ok else (
+            mod.explore_impl_only(ctx) if hasattr(mod, "explore_impl_only") else Exploration(rule="build failed; no exploration"))
+    except Exception as e:  # noqa: BLE001
+        # The harness runs to completion on the unchanged tree.  If it crashes, then either the tie is already known to be
+        # broken (the model / generated files no longer fit), or the exception was raised INSIDE the implementation under test
+        # (an operation that used to succeed now raises): both are reported as a broken correspondence, not as a harness error.
+        tb = traceback.extract_tb(e.__traceback__)
+        in_impl = any(str(REPO / "inferno") in (fr.filename or "") for fr in tb[-6:])
+        if not broken and not in_impl:
+            raise
+        where = next((f"{fr.filename}:{fr.lineno} in {fr.name}" for fr in reversed(tb) if str(REPO / "inferno") in (fr.filename or "")), "")
+        broken.append("correspondence:exploration-raised" + (":in-implementation" if in_impl else ""))
+        broken_detail.append({"stage": "exploration", "exception": f"{type(e).__name__}: {str(e)[:500]}", "where": where,
+                              "traceback": traceback.format_exc()[-3000:]})
+        ex = Exploration(rule=f"exploration stopped by {type(e).__name__} ({'raised inside the implementation at ' + where if in_impl else 'harness'})")
 
     known, _fixed = load_known()
     spec_findings = [f for f in ex.findings if f.kind == "spec"]
